@@ -193,7 +193,8 @@ structure Env (D L : Type) where
   lookupAll : D → List Nat → Strategy → List Phrase
   /-- `user_dict().lookup_all_phrases` -/
   userLookupAll : D → List Nat → Strategy → List Phrase
-  /-- `Layered::add_phrase`: `none` = `Err` -/
+  /-- `Layered::add_phrase`: `none` = `Err`; an empty phrase is logged as a bug and `Ok(())` is
+      returned without adding anything (so the result is `some d`) -/
   addPhrase : D → List Nat → Phrase → Option D
   /-- `Layered::update_phrase` (its result is discarded by the editor) -/
   updatePhrase : D → List Nat → Phrase → Nat → Nat → D
@@ -558,9 +559,6 @@ def learnInRangeQuiet (sh : Shared D L) (start stop : Nat) : Outcome (Shared D L
           let key := sylPrefix syms
           if (env.userLookupAll sh.dict key .standard).any (fun p => p.text == phrase) then
             .ok (sh, .error (msgExists phrase))
-          else if phrase.isEmpty then
-            -- Layered::add_phrase logs "BUG! added phrase is empty" and returns Ok(()) without adding
-            .ok ({ sh with dirty := sh.dirty + 1 }, .ok phrase)
           else match env.addPhrase sh.dict key { text := phrase, freq := 100 } with
             | some d => .ok ({ sh with dict := d, dirty := sh.dirty + 1 }, .ok phrase)
             | none => .ok (sh, .error msgFail)
@@ -1143,6 +1141,39 @@ def Editor.startSelecting (e : Editor D L) : Outcome (Editor D L × Bool) :=
     .ok ({ shared := sh, state := st }, isSel)
   | .panic p => .panic p
   | .outOfFuel => .outOfFuel
+
+/-- `Editor::jump_to_{first,last,next,prev}_selection_point` (`which` = 0, 1, 2, 3); `Bool` = `Ok` -/
+def Editor.jump (e : Editor D L) (which : Nat) : Outcome (Editor D L × Bool) :=
+  match e.state with
+  | .selecting s =>
+    match s.sel with
+    | .phrase p =>
+      let setP (p' : PhraseSel) : Editor D L := { e with state := .selecting { s with sel := .phrase p' } }
+      match which with
+      | 0 =>
+        match PhraseSel.init env p.forward p.strategy p.com p.orig e.shared.dict with
+        | .ok p' => .ok (setP p', true)
+        | .panic q => .panic q
+        | .outOfFuel => .outOfFuel
+      | 1 =>
+        match PhraseSel.jumpToLast env p e.shared.dict with
+        | .ok p' => .ok (setP p', true)
+        | .panic q => .panic q
+        | .outOfFuel => .outOfFuel
+      | 2 =>
+        match PhraseSel.nextSelectionPoint env p e.shared.dict with
+        | .ok (some (b, en)) => .ok (setP { p with begin_ := b, end_ := en }, true)
+        | .ok none => .ok (e, false)
+        | .panic q => .panic q
+        | .outOfFuel => .outOfFuel
+      | _ =>
+        match PhraseSel.prevSelectionPoint env p e.shared.dict with
+        | .ok (some (b, en)) => .ok (setP { p with begin_ := b, end_ := en }, true)
+        | .ok none => .ok (e, false)
+        | .panic q => .panic q
+        | .outOfFuel => .outOfFuel
+    | _ => .ok (e, false)
+  | _ => .ok (e, false)
 
 end
 
